@@ -221,6 +221,35 @@ void h_wrap(void)
 }
 #endif
 
+
+/* ------------------------------------------------------------------ P: one step of find
+ * the visited element is compared with the probe (with the caller's private pointer) and
+ * becomes the result, stopping the walk, exactly when the comparison says "equal" */
+#if defined(VF_G_find_visit) && !defined(VF_NATIVE)
+size_t vf_fv_calls; _Bool vf_fv_bad; int vf_fv_ret; const void * vf_fv_probe, * vf_fv_e; void * vf_fv_priv;
+int vf_fv_cmp(const void * a, const void * b, void * p)
+{
+    vf_fv_calls++;
+    /* (either argument order: the documentation fixes only "returns 0 for a match") */
+    if (!((a == vf_fv_probe && b == vf_fv_e) || (a == vf_fv_e && b == vf_fv_probe)) || p != vf_fv_priv) {
+        vf_fv_bad = 1;
+    }
+    vf_fv_ret = nondet_int();
+    return vf_fv_ret;
+}
+cstl_compare_func_t * const vf_anchor_fv_cmp = vf_fv_cmp;
+#define LF(p) ((struct cstl_dlist_find_priv *)(p))
+static int cstl_dlist_find_visit(void * const e, void * const p)
+REQUIRES(FRESH(p, sizeof(struct cstl_dlist_find_priv)) && LF(p)->cmp == vf_fv_cmp && vf_fv_calls == 0 && !vf_fv_bad)
+REQUIRES(vf_fv_probe == LF(p)->e && vf_fv_e == e && vf_fv_priv == LF(p)->p)
+ASSIGNS(LF(p)->e, vf_fv_calls, vf_fv_bad, vf_fv_ret)
+ENSURES(vf_fv_calls == 1 && !vf_fv_bad)
+ENSURES(vf_fv_ret == 0 ? (RESULT == 1 && LF(p)->e == e) : (RESULT == 0 && LF(p)->e == OLD(LF(p)->e)))
+;
+const void * nondet_cptr(void); void * nondet_ptr(void);
+void h_find_visit(void) { void * e = nondet_ptr(), * p; vf_fv_probe = nondet_cptr(); vf_fv_e = e; vf_fv_priv = nondet_ptr(); cstl_dlist_find_visit(e, p); VF_END(); }
+#endif
+
 /* ------------------------------------------------------------------ B: reference-sequence checks */
 static int vf_cmp_key(const void * a, const void * b, void * p)
 {
